@@ -186,6 +186,8 @@ func (s *SessionVariables) Set(key string, value interface{}) error {
 		return err
 	}
 	s.variables[formatKey] = variable
+	// a variable that is set again must not be reset to DEFAULT by the same statement
+	delete(s.unused, formatKey)
 	return nil
 }
 
@@ -205,6 +207,16 @@ func (s *SessionVariables) GetUnusedAndClear() map[string]*Variable {
 	unused := s.unused
 	s.unused = make(map[string]*Variable)
 	return unused
+}
+
+// RestoreUnused puts variables back on the to-DEFAULT list; used when the SET statement
+// that should have reset them was refused, so they are still set in the backend session.
+func (s *SessionVariables) RestoreUnused(unused map[string]*Variable) {
+	for name, v := range unused {
+		if _, ok := s.variables[name]; !ok {
+			s.unused[name] = v
+		}
+	}
 }
 
 // Reset removes any session variables that are not recognized according to the current verification rules.
